@@ -146,6 +146,21 @@ impl Drop for Zst {
         ZDROPS.fetch_add(1, std::sync::atomic::Ordering::SeqCst);
     }
 }
+/// a test fixture that owns a mock and verifies it explicitly in its destructor (clones are just dropped:
+/// verify() on a clone is a usage error at any time)
+pub struct VerifyOnDrop(pub Option<Unimock>, pub bool);
+impl Drop for VerifyOnDrop {
+    fn drop(&mut self) {
+        if let Some(u) = self.0.take() {
+            if self.1 {
+                u.verify();
+            } else {
+                drop(u);
+            }
+        }
+    }
+}
+
 /// a destructor that builds and drops a fresh mock with an unmet expectation (origin "userfresh")
 struct FreshOnDrop;
 impl Drop for FreshOnDrop {
@@ -416,7 +431,8 @@ impl LifeRunner {
                     let e = ev.j;
                     let origin = ev.origin.clone();
                     let other = if e != i { slots[e].take() } else { None };
-                    let wrap = self.behaviours % 4;
+                    let wrap = self.behaviours % 5;
+                    let is_original = i == 0;
                     let (other, r) = self.on(t, move || {
                         let other_ref = &other;
                         let r = catch_unwind(AssertUnwindSafe(move || {
@@ -425,6 +441,7 @@ impl LifeRunner {
                             let local_box;
                             let local_rc;
                             let local_arc;
+                            let local_guard;
                             let lref: Option<&Unimock> = match (local, wrap) {
                                 (None, _) => None,
                                 (Some(l), 0) => {
@@ -439,9 +456,15 @@ impl LifeRunner {
                                     local_rc = std::rc::Rc::new(l);
                                     Some(&*local_rc)
                                 }
-                                (Some(l), _) => {
+                                (Some(l), 3) => {
                                     local_arc = std::sync::Arc::new(l);
                                     Some(&*local_arc)
+                                }
+                                (Some(l), _) => {
+                                    // a fixture whose destructor verifies the original explicitly (verify() consumes
+                                    // and drops it) -- during the unwinding that is as silent as the plain drop
+                                    local_guard = VerifyOnDrop(Some(l), is_original);
+                                    local_guard.0.as_ref()
                                 }
                             };
                             let target: &Unimock = match other_ref {
